@@ -333,14 +333,17 @@ Lemma flv_tag_calls tags :
   = concat (map MF.mux_tag_writes tags).
 Proof.
   induction tags as [|t r IH]; [reflexivity|]. cbn [map concat]. rewrite IH. f_equal.
-  unfold MF.mux_tag_writes, MF.mux_tag_header, MF.mux_tag_trailer, be4. cbn [filter nonempty].
+  assert (Hh : nonempty (MF.mux_tag_header t) = true) by reflexivity.
+  assert (Ht : nonempty (MF.mux_tag_trailer t) = true) by reflexivity.
+  unfold MF.mux_tag_writes. cbn [filter]. rewrite Hh, Ht.
   destruct (MF.t_body t); reflexivity.
 Qed.
 
 Lemma flv_calls hv ha tags : calls_of (flv_wops hv ha tags) = MF.mux_writes hv ha tags.
 Proof.
   unfold calls_of, flv_wops, MF.mux_writes. cbn [map concat]. rewrite flv_tag_calls.
-  unfold MF.mux_header, MF.sigFLV. cbn [app filter nonempty]. reflexivity.
+  assert (Hh : nonempty (MF.mux_header hv ha) = true) by reflexivity.
+  cbn [filter]. rewrite Hh. reflexivity.
 Qed.
 
 Lemma flv_wire hv ha tags : concat (concat (flv_wops hv ha tags)) = MF.mux hv ha tags.
